@@ -68,7 +68,7 @@ RootKind(v) == v.t
 Line(w2) ==
   LET p  == ParseText(w2)
       v  == p.ok
-  IN  [fam |-> "word", w |-> w2, valid |-> v,
+  IN  [fam |-> "word", w |-> w2, valid |-> v, maxdepth |-> MaxDepth,
        val |-> IF v THEN p.v ELSE Null,
        root |-> IF v THEN RootKind(p.v) ELSE "none",
        patchok |-> IF v THEN Accepts(p.v) ELSE FALSE,
